@@ -329,10 +329,15 @@ def r1_accept(program, rep):
     cb = commits[0][0]
     Lt_ = lcommits[0][2]
     SL = _poly(fl, SLEN)
+    # the tests are looked for on the way to the first of the two stores
+    # (length / position): the other store follows it directly and would
+    # only out-date facts that mention the field's own attributes
+    lb = lcommits[0][0]
+    at = lb.node if cfg.dominates(lb.node, cb.node) else cb.node
 
     def bounded(H, S):
         want = _poly(fl, S) + _poly(fl, Lt_) - SL
-        for t, p in H.all_facts(cb.node):
+        for t, p in H.all_facts(at):
             if t[0] != "cmp" or t[1] not in ("Lt", "LtE"):
                 continue
             a, b = (t[2], t[3]) if p else (t[3], t[2])
@@ -370,6 +375,11 @@ def r1_accept(program, rep):
         if pv[0] == "elem" and pv[1][0] == "call" and \
                 pv[1][1] == ("global", "range"):
             continue
+        head = pv[1] if pv[0] in ("comp", "item", "elem") else pv
+        if head[0] in ("call", "callv", "opaque", "mu", "rec"):
+            raise AnalysisError("_assign_field: the position of a floating "
+                                "field comes from a search (%s) these rules "
+                                "do not follow" % show(pv)[:50])
         okl = False
     rep.check(okl, "C08-R1", inst, "a floating field is accepted only at a "
               "position with start + length <= the bit field's length",
@@ -1110,8 +1120,16 @@ def r6_tags(program, rep):
     body = [s for s in head.succ if s.label == "forbody"][0]
     FIELDS = ("attr", SELF, "fields")
     FVS = ("attr", SELF, "field_values")
-    it = plain(T.term(lp.iter, head))
-    PID = ("elem", T.term(lp.iter, head))
+    it_t = T.term(lp.iter, head)
+    it = plain(it_t)
+    PID = ("elem", it_t)
+    staged = T.filtered(it_t) if it[0] in ("listcomp", "genexp", "call") \
+        and not (it[0] == "call" and it[1][0] == "attr") else None
+    if staged and len(staged) == 1 and not staged[0][2]:
+        # the parents were looked up into a list first: the loop runs over
+        # get_field(<each requirement>), one per requirement
+        it = plain(staged[0][0])
+        PID = ("elem", staged[0][0])
     no_skip = not any(isinstance(n, (ast.Break, ast.Continue, ast.Return))
                       for n in ast.walk(lp))
     parent = plain(recv[1])
